@@ -301,4 +301,4 @@ def run(ctx):
                 break
     return dict(evaluations=stats["runs"], distinct_nontrivial=stats["scenarios"],
                 rule="(1) systematically: k=2..4 jobs at -j2/-j3 with the parent paused after every start and/or child exit so that every combination of {child exits, token arrivals} is pending at a wake-up; (2) fans of 8-12 jobs at -j8; (3) two invocations contending for one target and the acyclic lock hand-over graph; (4) one file named twice in a command; (4b) a parent that loses the select()/read() race for a token while its children wait for theirs; (5) random graphs with random -j, --shuffle and delays; every trace replayed through the Tokens, Locks and Waits (wait-for / progress) acceptors",
-                samples=samples, traces_validated_against_impl=stats["scenarios"], distribution=dict(stats, **WAITSTATS), known_hit=known_hit)
+                samples=samples, traces_validated_against_impl=stats["scenarios"], distribution=dict(stats, per_process_counter_model_TokLoop=dict(sched.TOKLOOP_STATS), **WAITSTATS), known_hit=known_hit)
